@@ -95,6 +95,78 @@ def run_case(client, cfg, strays, match):
     return result, int(el * 1000)
 
 
+def run_pair(client, cfg, stray_at, second_reply_at):
+    """Two requests on ONE session: the first sees a stray at tick `stray_at` and times out; the second is answered at
+    tick `second_reply_at` (< T) and must be delivered - whatever the first call left behind."""
+    from gufo.snmp import SnmpVersion
+
+    class PairAgent(threading.Thread):
+        def __init__(self):
+            super().__init__(daemon=True)
+            self.sock = socket.socket(socket.AF_INET, socket.SOCK_DGRAM)
+            self.sock.bind(("127.0.0.1", 0))
+            self.port = self.sock.getsockname()[1]
+
+        def run(self):
+            a = ag.Agent(engine=cfg.engine or None) if cfg.engine else ag.Agent()
+            for k in range(2):
+                r, _, _ = select.select([self.sock], [], [], 5.0)
+                if not r:
+                    return
+                data, peer = self.sock.recvfrom(65535)
+                t0 = time.monotonic()
+                req = ag.Request(cfg, data)
+                vbs = [(bytes(n), ("int", 1)) for n in req.names]
+                off = stray_at if k == 0 else second_reply_at
+                dt = t0 + off * TICK - time.monotonic()
+                if dt > 0:
+                    time.sleep(dt)
+                d = a.reply(cfg, req, vbs, reqid=(req.reqid + 7) & 0x7FFFFFFF) if k == 0 else a.reply(cfg, req, vbs)
+                try:
+                    self.sock.sendto(d, peer)
+                except OSError:
+                    return
+    agent = PairAgent()
+    agent.start()
+    ver = {"v1": SnmpVersion.v1, "v2c": SnmpVersion.v2c, "v3": SnmpVersion.v3}[cfg.ver]
+    kw = dict(port=agent.port, community=cfg.community, version=ver, timeout=T * TICK)
+    if cfg.ver == "v3":
+        kw.update(engine_id=cfg.engine, user=apidrv.user_of(cfg))
+    out = []
+    if client == "sync":
+        from gufo.snmp.sync_client import SnmpSession
+        s = SnmpSession("127.0.0.1", **kw)
+        for k in range(2):
+            t0 = time.monotonic()
+            try:
+                s.get("1.3.6.1.2.1.1.3.0")
+                r = "delivered"
+            except BaseException as e:  # noqa
+                r = type(e).__name__
+            out.append((r, int((time.monotonic() - t0) * 1000)))
+    else:
+        from gufo.snmp.async_client import SnmpSession
+
+        async def go():
+            s = SnmpSession("127.0.0.1", **kw)
+            res = []
+            for k in range(2):
+                t0 = time.monotonic()
+                try:
+                    await s.get("1.3.6.1.2.1.1.3.0")
+                    r = "delivered"
+                except BaseException as e:  # noqa
+                    r = type(e).__name__
+                res.append((r, int((time.monotonic() - t0) * 1000)))
+            return res
+        out = asyncio.run(go())
+    try:
+        agent.sock.close()
+    except OSError:
+        pass
+    return out
+
+
 def event(client, cfgname, strays, match, result, el):
     return dict(ev="Timed", client=client, ver=cfgname, T=T, tick_ms=int(TICK * 1000), strays=list(strays), match=match, result=result, elapsed_ms=el,
                 slack_ms=SLACK_MS, early_ms=EARLY_MS)
@@ -144,16 +216,60 @@ def run(tier):
         t.start()
     for t in threads:
         t.join()
+    # pairs of requests on one session: what the first call (stray, then timeout) leaves behind must not shorten the second
+    pairs = [(client, cn, sa, ra) for client in ("sync", "async") for cn in (["v2c", "v3-md5"] if not thorough else ["v2c", "v1", "v3-md5"])
+             for sa in (1, 3) for ra in (1, 3)]
+    pres = {}
+
+    def pworker(items):
+        for p in items:
+            r = run_pair(p[0], std[p[1]], p[2], p[3])
+            with lock:
+                pres[p] = r
+    pthreads = [threading.Thread(target=pworker, args=(pairs[i::8],)) for i in range(8)]
+    for t in pthreads:
+        t.start()
+    for t in pthreads:
+        t.join()
     rec = trace.Recorder("c18")
     for c in cases:
         client, cn, (strays, match) = c
         rec.emit(event(client, cn, strays, match, *results[c]))
         chk.case((client, cn, strays, match), nontrivial=len(strays) > 0)
+    pair_index = {}
+    for p in pairs:
+        client, cn, sa, ra = p
+        r = pres[p]
+        if len(r) == 2:
+            rec.emit(event(client, cn, (sa,), 0, *r[0]))          # first call: one stray, no reply -> TimeoutError at T
+            pair_index[rec.n] = p
+            rec.emit(event(client, cn, (), ra, *r[1]))             # second call on the same session: reply at ra < T
+            pair_index[rec.n] = p
+        chk.case(("pair", client, cn, sa, ra))
     v = trace.validate("TraceTimeout.tla", "TraceTimeout.cfg", rec.close())
     chk.add_tlc(v["res"], "TraceTimeout")
     chk.traces += len(cases)
     # re-confirmation: a case is reported only if it fails three times in a row (no single-shot timing verdicts)
     for f in v["fails"]:
+        if f > len(cases):
+            p = pair_index.get(f)
+            client, cn, sa, ra = p
+            confirmed, evs = True, [rec.events[f - 1]]
+            for _ in range(2):
+                r = run_pair(client, std[cn], sa, ra)
+                rec2 = trace.Recorder("c18-confirm")
+                rec2.emit(event(client, cn, (sa,), 0, *r[0]))
+                rec2.emit(event(client, cn, (), ra, *r[1]))
+                v2 = trace.validate("TraceTimeout.tla", "TraceTimeout.cfg", rec2.close())
+                evs.append(rec2.events[-1])
+                if not v2["fails"]:
+                    confirmed = False
+                    break
+            if confirmed:
+                chk.violation(dict(client=client, kind="second-request-on-session", result=evs[0]["result"]),
+                              "%s %s: after a request that saw a stray at tick %d and timed out, the next request (reply at tick %d < timeout) ended %s after %d ms" %
+                              (client, cn, sa, ra, evs[0]["result"], evs[0]["elapsed_ms"]), dict(client=client, cfg=cn, pair=[sa, ra], runs=evs))
+            continue
         c = cases[f - 1]
         client, cn, (strays, match) = c
         evs = [rec.events[f - 1]]
@@ -184,6 +300,19 @@ def replay(path):
     r = d["replay"]
     std = scripts.std_cfgs()
     bad = 0
+    if "pair" in r:
+        for _ in range(3):
+            res = run_pair(r["client"], std[r["cfg"]], r["pair"][0], r["pair"][1])
+            rec = trace.Recorder("c18-replay")
+            rec.emit(event(r["client"], r["cfg"], (r["pair"][0],), 0, *res[0]))
+            rec.emit(event(r["client"], r["cfg"], (), r["pair"][1], *res[1]))
+            v = trace.validate("TraceTimeout.tla", "TraceTimeout.cfg", rec.close())
+            print(res, "rejected" if v["fails"] else "accepted")
+            bad += 1 if v["fails"] else 0
+        if bad == 3:
+            print("VIOLATION property=C18 replay=%s" % path)
+            return 1
+        return 0
     for _ in range(3):
         res = run_case(r["client"], std[r["cfg"]], tuple(r["strays"]), r["match"])
         rec = trace.Recorder("c18-replay")
